@@ -14,11 +14,15 @@ const DEFS: [u16; 3] = [0x4000, 0x4001, 0x0100];
 /// external label names: mixed-case ASCII, and one with a non-ASCII letter (the lexer accepts any Unicode word character)
 const NAMES: [&str; 2] = ["XtRn", "café_1"];
 
-fn user(placement: u64, uses: u64, origin: u16, name: &str) -> (AProg, Vec<u16>) {
+fn user(placement: u64, uses: u64, origin: u16, name: &str) -> (AProg, Vec<u16>) { user_pre(placement, uses, origin, name, 0) }
+/// `pre`: what stands in front of the first use (its size decides where the uses are): HALT; a string of 2-, 3- and 4-byte characters
+/// (one word per UTF-8 byte plus the terminator); a reserved region; an empty string
+fn user_pre(placement: u64, uses: u64, origin: u16, name: &str, pre: u64) -> (AProg, Vec<u16>) {
     let ext = st(Nuc::External(name.to_string()));
-    let mut body: Vec<AStmt> = vec![st(Nuc::Halt), lst("U1", Nuc::Fill(FillOp::Lab(name.to_string())))];
-    let mut addrs = vec![origin + 1];
-    if uses >= 1 { body.push(st(Nuc::Fill(FillOp::Num(0x7777)))); body.push(st(Nuc::Fill(FillOp::Lab(if uses == 2 { name.to_lowercase() } else { name.to_string() })))); addrs.push(origin + 3); }
+    let (first, size) = match pre { 0 => (Nuc::Halt, 1u16), 1 => (Nuc::Stringz("é€𝄞a".into()), 11), 2 => (Nuc::Blkw(3), 3), _ => (Nuc::Stringz(String::new()), 1) };
+    let mut body: Vec<AStmt> = vec![st(first), lst("U1", Nuc::Fill(FillOp::Lab(name.to_string())))];
+    let mut addrs = vec![origin + size];
+    if uses >= 1 { body.push(st(Nuc::Fill(FillOp::Num(0x7777)))); body.push(st(Nuc::Fill(FillOp::Lab(if uses == 2 { name.to_lowercase() } else { name.to_string() })))); addrs.push(origin + size + 2); }
     let other = block(0x6000, vec![lst("OTHER", Nuc::Fill(FillOp::Num(1)))]);
     let prog = match placement {
         0 => { let mut p = vec![ext]; p.extend(block(origin, body)); p }
@@ -39,8 +43,9 @@ fn check(i: u64) -> Option<(String, String)> {
     let origin = ORIGINS[(i / (PLACEMENTS * USES * 2) % 3) as usize]; let def_at = DEFS[(i / (PLACEMENTS * USES * 6) % 3) as usize];
     let def_debug = i / (PLACEMENTS * USES * 18) % 2 == 1;
     let name = NAMES[(i / (PLACEMENTS * USES * 36) % 2) as usize];
-    let (prog, addrs) = user(placement, uses, origin, name);
-    let tag = format!("placement={placement} uses={uses} debug={debug} origin=x{origin:04X} definer@x{def_at:04X} definer_debug={def_debug}");
+    let pre = i / (PLACEMENTS * USES * 72) % 4;
+    let (prog, addrs) = user_pre(placement, uses, origin, name, pre);
+    let tag = format!("placement={placement} uses={uses} debug={debug} origin=x{origin:04X} definer@x{def_at:04X} definer_debug={def_debug} first-statement={}", ["HALT", "a string of multi-byte characters", ".blkw 3", "an empty string"][pre as usize]);
     let r = catch(|| -> Result<(), (String, String)> {
         let Some((obj, text)) = assemble_prog(&prog, debug, &Style::plain()) else { return Err(("machinery:generator".into(), format!("user program does not assemble ({tag})"))); };
         // direct load must fail with UnresolvedExternal
@@ -157,7 +162,7 @@ fn check_many(ne: usize, nf: usize, after: bool, user_debug: bool) -> Option<(St
             let mut sim = new_sim();
             if let Err(e) = sim.load_obj_file(&linked) { return Err(("many:linked-load-fails".into(), format!("{tag} order={order}: {e:?}"))); }
             let bad: Vec<u16> = (0..nf * ne).filter(|k| sim.mem[0x5000 + *k as u16].get() != 0x4000 + (*k % ne) as u16).map(|k| 0x5000 + k as u16).collect();
-            if !bad.is_empty() { return Err(("many:silently-unresolved".into(), format!("{tag} order={order}: the load succeeds but {} of {} .fill sites do not hold their label's address (first: x{:04X})", bad.len(), nf * ne, bad[0]))); }
+            if !bad.is_empty() { return Err(("many:silently-unresolved".into(), format!("{tag}: the load of the linked file succeeds but some of its {} .fill sites do not hold their label's address (which ones can vary between runs)", nf * ne))); }
         }
         Ok(())
     });
@@ -167,7 +172,7 @@ const MANY: [(usize, usize); 12] = [(1, 31), (1, 32), (1, 33), (1, 64), (1, 65),
 
 pub fn run(ctx: &Ctx) -> Report {
     let mut rep = Report::new(".external X placed {before the block, inside before the use, inside after the use, after the block, between two blocks (use before / after)} x {1 use, 2 uses, 2 uses in different letter case} x user assembled with/without debug symbols x 3 origins x 3 definer addresses x definer with/without debug symbols x label name {ASCII mixed case, containing a non-ASCII letter}; direct load must fail with UnresolvedExternal; after linking with a definer that carries its label table, in either order, every .fill word must hold X's address and the load must succeed; after linking with a definer assembled without debug symbols (no label table, nothing to resolve against) the load must still fail with UnresolvedExternal rather than run with 0. Chains: every ordered selection of 2-3 (thorough 4) of 7 files (two users of 2 and 3 distinct externals with repeated and differently-cased uses, definers of P / Q / R / P+Q, a definer of R that itself uses P), folded from the left and from the right, every file that declares externals (users, and the definer that itself uses an external) with and without debug symbols; after every link step: if some used label is still undefined the load must fail naming one of them, otherwise it must succeed with every .fill site holding its label's address; links fail only on duplicate definitions. non-trivial = every case (each has an unresolved external)");
-    let n = PLACEMENTS * USES * 2 * 3 * 3 * 2 * 2;
+    let n = PLACEMENTS * USES * 2 * 3 * 3 * 2 * 2 * 4;
     let r = sweep(ctx, n, 4, |i, acc| {
         acc.evals += 1; acc.transitions += 6; acc.nontrivial += 1;
         acc.outcomes.insert(i % (PLACEMENTS * USES * 2));
